@@ -1,6 +1,7 @@
 package main
 
 import (
+	"unicode/utf8"
 	"context"
 	"fmt"
 	"io"
@@ -244,7 +245,9 @@ func sameStatus(a, b *status.Status) (bool, string) {
 	if a.Code() != b.Code() {
 		return false, fmt.Sprintf("code %v vs %v", a.Code(), b.Code())
 	}
-	if a.Message() != b.Message() {
+	// compared modulo the replacement-character sanitising the standard transport itself applies:
+	// every maximal run of invalid bytes / U+FFFD counts as one U+FFFD on both sides
+	if sanitised(a.Message()) != sanitised(b.Message()) {
 		return false, fmt.Sprintf("message %q vs %q", a.Message(), b.Message())
 	}
 	ad, bd := a.Proto().GetDetails(), b.Proto().GetDetails()
@@ -257,6 +260,25 @@ func sameStatus(a, b *status.Status) (bool, string) {
 		}
 	}
 	return true, ""
+}
+
+func sanitised(s string) string {
+	var b strings.Builder
+	prevRepl := false
+	for len(s) > 0 {
+		r, n := utf8.DecodeRuneInString(s)
+		if r == utf8.RuneError {
+			if !prevRepl {
+				b.WriteRune(utf8.RuneError)
+			}
+			prevRepl = true
+		} else {
+			b.WriteString(s[:n])
+			prevRepl = false
+		}
+		s = s[n:]
+	}
+	return b.String()
 }
 
 func classifyMsg(s string) string {
@@ -367,6 +389,12 @@ func extraC02(r *Run) {
 			c := map[string]interface{}{"transport": tp.name, "kind": kind, "code": uint32(st.Code()), "message_hex": hexOrDash([]byte(st.Message())), "details": len(st.Proto().Details), "messages_before_error": after}
 			if err == nil || err == io.EOF {
 				r.Violate(tp.name+"/status/"+kind+"/error-reported-as-success", "the client reports success only if the handler returned nil", sprintf("handler returned %v; client saw %v", st.Err(), err), c, canonErr(err))
+				continue
+			}
+			// the yardstick is the handler's own status; where the standard transport delivers something else
+			// for the same handler (its sanitising, e.g. details dropped with an invalid-UTF-8 message), that
+			// is accepted as well
+			if okH, _ := sameStatus(got, st); okH {
 				continue
 			}
 			if ok, why := sameStatus(got, want); !ok {
